@@ -114,7 +114,7 @@ def extract_item(repo, relfile, path, opts, cfgs):
     return lines, origin, notes, rwnotes
 
 
-def merge(overlay, src):
+def merge(overlay, src, drop_disturbed=False):
     """overlay: section lines (code + ghost); src: current (rewritten) source lines.
 
     Returns (merged_lines, tags, disturbed) where tags[i] is ('g', overlay_idx) or
@@ -155,14 +155,23 @@ def merge(overlay, src):
     pos[n] = m
     by_pos = {}
     disturbed = 0
+    dist_set = set()
     for oi, k in attach:
         by_pos.setdefault(pos[k], []).append(oi)
         prev_ok = matched[k - 1] if k > 0 else True
         if not (matched[k] and prev_ok):
             disturbed += 1
+            dist_set.add(oi)
+    # a disturbed ghost line taints the whole run of consecutive ghost lines it belongs to
+    if drop_disturbed and dist_set:
+        for oi, k in attach:
+            if any((o2 in dist_set) and k2 == k for o2, k2 in attach):
+                dist_set.add(oi)
     out, tags = [], []
     for j in range(m + 1):
         for oi in by_pos.get(j, []):
+            if drop_disturbed and oi in dist_set:
+                continue
             out.append(overlay[oi])
             tags.append(('g', oi))
         if j < m:
@@ -202,16 +211,34 @@ class Built:
         self.dropped = []
 
 
-def build(unit_path, repo, cfgs=()):
+def build(unit_path, repo, cfgs=(), drop_disturbed=False):
     b = Built()
+    b.drop_disturbed = drop_disturbed
     _build_file(unit_path, repo, cfgs, b, depth=0)
     return b
+
+
+VIEW_TAG = re.compile(r'^(\s*/\*@\*/\s*)/\*([SL])\*/ ?')
+
+
+def view_filter(lines, cfgs):
+    """ghost lines tagged /*S*/ are kept only in the `strict` view, /*L*/ only in the lax view"""
+    strict = 'strict' in cfgs
+    out = []
+    for l in lines:
+        mm = VIEW_TAG.match(l)
+        if mm:
+            if (mm.group(2) == 'S') != strict:
+                continue
+            l = mm.group(1) + l[mm.end():]
+        out.append(l)
+    return out
 
 
 def _build_file(path, repo, cfgs, b, depth):
     if depth > 5:
         raise BuildError("include depth")
-    lines = read_lines(path)
+    lines = view_filter(read_lines(path), cfgs)
     rel = os.path.relpath(path, os.path.dirname(os.path.dirname(os.path.abspath(__file__))))
     i = 0
     while i < len(lines):
@@ -240,7 +267,7 @@ def _build_file(path, repo, cfgs, b, depth):
             b.origin.append(('contract', rel, i + 1))
             try:
                 src, origin, notes, rwnotes = extract_item(repo, relfile, ipath, opts, cfgs)
-                out, tags, disturbed, drift = merge(section, src)
+                out, tags, disturbed, drift = merge(section, src, getattr(b, 'drop_disturbed', False))
                 # round trip: the non-ghost lines of the merged text are exactly the source lines
                 if [l for l, t in zip(out, tags) if t[0] == 'c'] != src:
                     raise BuildError("round-trip check failed for %s" % arg)
